@@ -15,6 +15,10 @@
 //            (the old one destroyed), a = it is move-ASSIGNED into another, already used parser object.  The usage text
 //            must not depend on any of them.
 //   groups : an entry "name:descr:L" is a group created LATE (together with the late options)
+//   pos may carry a third part ":<fmt>": the FORMATTING STATE put on every target stream just before usage() is called
+//            (after the prior content was written): '.'-separated items  f<hex byte> fill character, L|R|I adjustfield,
+//            h|o|d basefield, s showbase, u uppercase, b boolalpha, p<n> precision, e exceptions(goodbit), w<n> a pending
+//            field width.  None of it may change the text.  (One more usage() call goes to a stream in its default state.)
 //   an opt of kind r (R) RE-REQUESTS an already declared option (same name, kind, group) with another description and applies
 //   the setters of its word to the returned object: short/env/metavar "-" = not set, default n = not set, flag 1 = optional()/allow_reverse()
 //   an opt whose kind letter is upper case (O|M|T|R) is declared LATE: after a first usage() call has already been made
@@ -139,15 +143,41 @@ static std::string run_usage(const std::vector<std::string>& w)
     {
         // the parser lives on the heap so that it can be moved into another object (hist letters c and a)
         auto pp = std::make_unique<no::parser>(unhex(w[1]), unhex(w[2]), unhex(w[3]));
-        std::string posfield = w[4], hist;
+        std::string posfield = w[4], hist, fmt;
         {
-            auto colon = posfield.find(':');
-            if (colon != std::string::npos)
-            {
-                hist = posfield.substr(colon + 1);
-                posfield = posfield.substr(0, colon);
-            }
+            auto parts = split_on(posfield, ':');
+            posfield = parts[0];
+            if (parts.size() > 1) hist = parts[1];
+            if (parts.size() > 2) fmt = parts[2];
+            if (parts.size() > 3) return "BADCASE";
         }
+        // the formatting state of a target stream
+        bool badfmt = false;
+        auto apply_fmt = [&](std::ostream& os) {
+            if (fmt.empty()) return;
+            for (auto& item : split_on(fmt, '.'))
+            {
+                if (item.empty()) continue;
+                const std::string arg = item.substr(1);
+                switch (item[0])
+                {
+                case 'f': os.fill(unhex(arg).empty() ? ' ' : unhex(arg)[0]); break;
+                case 'L': os.setf(std::ios::left, std::ios::adjustfield); break;
+                case 'R': os.setf(std::ios::right, std::ios::adjustfield); break;
+                case 'I': os.setf(std::ios::internal, std::ios::adjustfield); break;
+                case 'h': os.setf(std::ios::hex, std::ios::basefield); break;
+                case 'o': os.setf(std::ios::oct, std::ios::basefield); break;
+                case 'd': os.setf(std::ios::dec, std::ios::basefield); break;
+                case 's': os.setf(std::ios::showbase); break;
+                case 'u': os.setf(std::ios::uppercase); break;
+                case 'b': os.setf(std::ios::boolalpha); break;
+                case 'p': os.precision(std::stoi(arg)); break;
+                case 'e': os.exceptions(std::ios::goodbit); break;
+                case 'w': os.width(std::stoi(arg)); break;
+                default: badfmt = true;
+                }
+            }
+        };
         std::size_t pos_amount = 0;
         if (posfield == "1")
         {
@@ -315,9 +345,11 @@ static std::string run_usage(const std::vector<std::string>& w)
 
         {
             std::stringstream fresh;
+            apply_fmt(fresh);
             pp->usage(fresh);
             a = fresh.str();
         }
+        if (badfmt) return "BADCASE";
         do_parses();
         {
             std::stringstream again;
@@ -328,6 +360,7 @@ static std::string run_usage(const std::vector<std::string>& w)
         {
             std::stringstream s;
             s << prior;
+            apply_fmt(s);
             pp->usage(s);
             b = s.str();
             if (b.compare(0, prior.size(), prior) != 0) return "PRIOR-CONTENT-DAMAGED";
@@ -338,6 +371,7 @@ static std::string run_usage(const std::vector<std::string>& w)
             sink_buf sb;
             std::ostream os(&sb);
             if (os.tellp() != std::ostream::pos_type(-1)) return "DRIVER-SINK-IS-SEEKABLE";
+            apply_fmt(os);
             pp->usage(os);
             c = sb.data;
         }
